@@ -275,8 +275,12 @@ Proof.
     pose proof (mregs_call (r_cfg r) (lookup r) (r_now r) (r_dealer r) s req opts proc args kw oracle (i_regs r I)) as M.
     destruct (call _ _ _ _ _ _ _ _ _ _ _) as [d o|o|d callee o].
     + cbn [fst snd]. apply tracks_quiet; [exact I|exact (i_meta r I)|reflexivity|exact M|reflexivity|exact P].
-    + rewrite P. specialize (Lv (RAbort [("message", vstr "<text>")] e_protocol_violation) eq_refl).
-      destruct (leave r (s_id s)) as [r1 o1]. exact Lv.
+    + rewrite P. cbv zeta.
+      match goal with |- context [leave ?R (s_id s)] => set (ra := R) end.
+      assert (Ia : inv18 ra) by (destruct I as [A B C]; constructor; [exact A|exact B|apply mregs_call_abort; exact C]).
+      pose proof (ended_tracks r ra (s_id s) [] (RAbort [("message", vstr "<text>")] e_protocol_violation)
+                               I Ia eq_refl eq_refl noend_nil eq_refl) as Tk.
+      destruct (leave ra (s_id s)) as [r1 o1]. exact Tk.
     + assert (I0 : inv18 (r_set_dealer r d)) by (destruct I as [A B C]; constructor; assumption).
       destruct (update_session_inv (r_set_dealer r d) callee I0) as (I1 & J1 & P1).
       eapply (tracks_pre r (update_session (r_set_dealer r d) callee)); [exact J1|exact P1|].
